@@ -1,7 +1,7 @@
 SPECIFICATION Spec
 CONSTANTS
   Accounts <- AllAccounts
-  Thorough = FALSE
+  Thorough = TRUE
 VIEW RoleView
 INVARIANTS HistoryOK ModuleAccountEmpty ThresholdInv
 PROPERTIES SpecSatisfiesLenses StepwiseIsRun RoleLifecycle
